@@ -26,7 +26,7 @@ Theorem valid_calls_emit_parse a body r :
   run_session dev_none (a, body) =
   ok_res :: repeat ok_res (p_n (parse (fresh a) body))
          ++ emit_res (p_val (parse (fresh a) body))
-         :: done_results None (S (S (p_n (parse (fresh a) body)))) r.
+         :: done_results (S (S (p_n (parse (fresh a) body)))) r.
 Proof.
   intros Ha Hr Hs Hrest. rewrite (one_epoch a body Ha Hr). unfold body_results. rewrite Hs, Hrest.
   reflexivity.
@@ -60,7 +60,7 @@ Proof.
     rewrite H1, H2, E1, E2. f_equal.
     destruct (split l) as [h t] eqn:E. destruct (split_spec l h t E) as [-> [Hh Ht]].
     rewrite !run_app. f_equal.
-    + rewrite (run_stuck dev_none h (S i) s1' _ E1 M1 Hh), (run_stuck dev_none h (S i) s2' _ E2 M2 Hh). reflexivity.
+    + rewrite (run_stuck dev_none h (S i) s1' _ E1 Hh), (run_stuck dev_none h (S i) s2' _ E2 Hh). reflexivity.
     + destruct t as [|[a' b'] t']; [reflexivity|].
       unfold flatten. cbn [map concat fst snd]. fold (flatten t').
       change (CReset a' :: b' ++ flatten t') with ((CReset a' :: b') ++ flatten t').
